@@ -16,7 +16,7 @@ PROPERTIES = {
         "level": "proof",
         "min_obligations": 2000,
     },
-    "T": {"contracts": [reshape.Transpose, reshape.SwapAxes, reshape.RollAxis, reshape.NewAxis, reshape.Squeeze, reshape.Repeat], "level": "proof"},
+    "T": {"contracts": [metadata.CopyIndependence], "level": "proof"},
     "C03": {
         "contracts": [bases.SetItem, indexing.MaybeCastType, (bases.Accessors, r"write|put|setitem"), (bases.ItemForwarding, r"^set"),
                       (bases.GetIndices, r"^r[01]-")],
@@ -34,6 +34,16 @@ PROPERTIES = {
         "contracts": [reshape.Transpose, reshape.SwapAxes, reshape.RollAxis, reshape.NewAxis, reshape.Squeeze, reshape.Repeat],
         "level": "proof",
         "min_obligations": 1200,
+    },
+    "C15": {
+        "contracts": [metadata.CopyIndependence,
+                      (bases.GetItem, r"^r[12]-.*-label$"), (bases.SetItem, r"-copy$"),
+                      (align.TakeAxis, r"."), (align.SortAxis, r"."),
+                      (reshape.Transpose, r"^r[23]-.*-names$"), (reshape.SwapAxes, r"-names$"), (reshape.NewAxis, r"."), (reshape.Squeeze, r"."), (reshape.Repeat, r"."),
+                      (axes.AxisUnion, r"-ff-"), (axes.AxisIntersection, r"-ff-"),
+                      align.GetAlignedAxes, (align.Align, r"-inner-")],
+        "level": "proof",
+        "min_obligations": 2000,
     },
     "C16": {
         "contracts": [metadata.AttrRouting, metadata.AttrsProperty, metadata.AxisMetadataSurvivesIndexing,
